@@ -566,6 +566,15 @@ impl Stream {
         
         drop(data);
         
+        // NOACK deliveries are not pending, but they still advance the group
+        if noack && after_id == StreamId::max() {
+            if let Some(last) = entries.last() {
+                if last.id > group.get_last_id() {
+                    group.set_id(last.id);
+                }
+            }
+        }
+        
         if !noack && !entries.is_empty() {
             // Add entries to pending unless NOACK
             let pending_entries = group.add_pending(consumer_name, entries.clone());
